@@ -26,5 +26,7 @@ RULES = [
     ("C07.wq", lambda c, r: __import__("sa.rules.wq", fromlist=["x"]).rule_workqueue(c, r, "C07.wq")),   # the work queue that executes resizes / deferred destroys
     ("C07.del", lambda c, r: __import__("sa.rules.lfht2", fromlist=["x"]).rule_del(c, r, "C07.del")),
     ("C07.delbucket", lambda c, r: __import__("sa.rules.lfht2", fromlist=["x"]).rule_delete_bucket(c, r, "C07.delbucket")),
+    ("C07.gcskel", lambda c, r: __import__("sa.rules.lfht2", fromlist=["x"]).rule_gcskel(c, r, "C07.gcskel")),
+    ("C07.destroy2", lambda c, r: __import__("sa.rules.lfht2", fromlist=["x"]).rule_destroy2(c, r, "C07.destroy2")),
 ]
 FLOORS = {}
